@@ -389,6 +389,7 @@ def gen_factory_cases(ctx, S):
             if opt:
                 for p in opt:
                     add(full("edge", present={p["name"]}), "one-optional")
+                    add(full("zero", present={p["name"]}), "one-optional-falsy")   # 0 / False / b'' / [] given is not "not given"
                 for _ in range(12 if ctx.thorough else 2):
                     add(full("edge", present={p["name"] for p in opt if rng.random() < 0.5}), "optional-subset")
             for _ in range(25 if ctx.thorough else 2):
@@ -415,7 +416,44 @@ def gen_factory_cases(ctx, S):
                     for i, p in enumerate(pi):
                         d[p["name"]] = None if (p["default_none"] and p["name"] not in present) else sentinel_arg(p, i)
                     cases.append((v, f["dom"], f["name"], d, "opaque-sentinel"))
+                for i, p in enumerate(pi):
+                    fz = falsy_arg(p)
+                    if p["default_none"] and fz is not None:
+                        d = {q["name"]: (None if q["default_none"] else sentinel_arg(q, j)) for j, q in enumerate(pi)}
+                        d[p["name"]] = fz
+                        cases.append((v, f["dom"], f["name"], d, "opaque-falsy:" + p["name"]))
     return cases
+
+
+def falsy_arg(p):
+    kind = annotation_kind(p.get("ann"))
+    return {"int": {"t": "int", "v": 0}, "bool": {"t": "bool", "v": False}, "bytes": {"t": "bytes", "v": ""},
+            "intlist": {"t": "intlist", "v": []}, "byteslist": {"t": "byteslist", "v": []}, "tuplelist": {"t": "tuplelist", "v": []}}.get(kind)
+
+
+def falsy_oracle(f, pname, res_absent, res_sentinel, res_falsy):
+    """factory outside the grammar: the field(s) that optional parameter `pname` lands in are those that differ between
+    the call without any optional argument and the call with only `pname` (sentinel); given as 0 / False / b'' / []
+    the same field(s) must read back as that value, not as unset"""
+    for r in (res_absent, res_sentinel):
+        if "exc" in r or "cls" not in r.get("obs", {}):
+            return []
+    fa, fs = res_absent["obs"]["fields"], res_sentinel["obs"]["fields"]
+    targets = [a for a in fs if not same_value(fs.get(a), fa.get(a))]
+    if "exc" in res_falsy:
+        return [("factory raised %s when optional argument '%s' is given its zero value" % (res_falsy["exc"], pname), "a message", res_falsy["exc"])]
+    o = res_falsy.get("obs", {})
+    if "cls" not in o:
+        return [("message with '%s' at its zero value does not parse back" % pname, res_falsy.get("created"), o)]
+    for a in targets:
+        got = o["fields"].get(a)
+        if got is None or "exc" in got:
+            return [("optional argument '%s' given as its zero value is reported unset (field '%s')" % (pname, a), "0 / False / b'' / []", got)]
+        s_ = got.get("s")
+        zero = (s_ is not None and (s_.get("i") == 0 or s_.get("b") is False or s_.get("x") == "")) or got.get("list") == [] or got.get("recs") == []
+        if not zero:
+            return [("field '%s' does not carry the zero value given for '%s'" % (a, pname), "0 / False / b'' / []", got)]
+    return []
 
 
 PINNED_OPAQUE = {("generic", "create_command_result")}   # dictionary dispatch on the result code
@@ -569,6 +607,32 @@ def gen_parse_cases(ctx, S, valid_wires):
         else:
             add(w, "valid")
     return cases
+
+
+def gen_sequences(ctx, S, wires, fcases):
+    """several parse / create calls on ONE hub instance (messages returned by different calls are independent)"""
+    rng, out = ctx.rng, []
+    wires = [w for w in wires if w]
+    if not wires:
+        return out
+    versions = list(range(1, S.maxv + 1))
+    junk = ["", "ff", "0a", "1a00", "0801", "1a029a02"]
+    for k in range(300 if ctx.thorough else 60):
+        v = rng.choice(versions)
+        steps = []
+        for _ in range(rng.randrange(2, 7)):
+            r = rng.random()
+            if r < 0.6:
+                steps.append({"op": "parse", "data": rng.choice(wires)})
+            elif r < 0.75:
+                steps.append({"op": "parse", "data": rng.choice(junk)})
+            elif fcases:
+                c = rng.choice(fcases)
+                steps.append({"op": "factory", "dom": c[1], "factory": c[2], "args": c[3]})
+        if k % 3 == 0:      # the same message parsed twice: two independent results
+            steps.append(dict(steps[0]))
+        out.append((v, steps))
+    return out
 
 
 # ---------------------------------------------------------------------------------------------
@@ -871,11 +935,12 @@ def run(ctx):
     r1 = C.run_impl("C02.py", req)
     wires = [r["wire"] for r in r1["wrapper"] if "wire" in r] + [r["wire"] for r in r1["factory"] if "wire" in r]
     pcases = corpus_parse + gen_parse_cases(ctx, S, wires)
-    r2 = C.run_impl("C02.py", {"parse": [[v, hx] for v, hx, _k in pcases]})
-    rw, rf, rp = r1["wrapper"], r1["factory"], r2["parse"]
+    scases = gen_sequences(ctx, S, wires, [c for c in fcases if c[4] in ("all-args", "one-optional", "optionals-absent")])
+    r2 = C.run_impl("C02.py", {"parse": [[v, hx] for v, hx, _k in pcases], "sequence": [[v, steps] for v, steps in scases]})
+    rw, rf, rp, rs = r1["wrapper"], r1["factory"], r2["parse"], r2["sequence"]
     ctx.log("implementation: %d wrapper, %d factory, %d parse cases" % (len(rw), len(rf), len(rp)))
-    ctx.cov["evaluations"] = len(rw) + len(rf) + len(rp)
-    ctx.cov["traces_validated_against_impl"] = len(rw) + len(rf) + len(rp)
+    ctx.cov["evaluations"] = len(rw) + len(rf) + len(rp) + len(rs)
+    ctx.cov["traces_validated_against_impl"] = len(rw) + len(rf) + len(rp) + len(rs)
 
     # ---- 4. oracle ------------------------------------------------------------------------------
     n_inadm, n_dup, seen_fail = 0, 0, set()
@@ -891,6 +956,23 @@ def run(ctx):
                     continue
                 seen_fail.add((dom, fname, what))
                 ctx.violation("%s.%s (version %d): %s" % (dom, fname, v, what), case, expected=exp, observed=obs)
+        elif kind.startswith("opaque-falsy:"):
+            pname = kind.split(":", 1)[1]
+            def find(k2, pred):
+                for j, c2 in enumerate(fcases):
+                    if c2[0] == v and c2[1] == dom and c2[2] == fname and c2[4] == k2 and pred(c2[3]):
+                        return rf[j]
+                return None
+            opt_names = [q["name"] for q in ospec[(dom, fname)]["param_info"] if q["default_none"]]
+            r_abs = find("opaque-sentinel", lambda a: all(a.get(o_) is None for o_ in opt_names))
+            r_sen = find("opaque-sentinel", lambda a: a.get(pname) is not None and all(a.get(o_) is None for o_ in opt_names if o_ != pname))
+            if r_abs is not None and r_sen is not None:
+                for what, exp, obs in falsy_oracle(ospec[(dom, fname)], pname, r_abs, r_sen, res)[:1]:
+                    if (dom, fname, what) in seen_fail:
+                        n_dup += 1
+                        continue
+                    seen_fail.add((dom, fname, what))
+                    ctx.violation("%s.%s (version %d, outside the translator grammar): %s" % (dom, fname, v, what), case, expected=exp, observed=obs)
         elif kind == "opaque-sentinel":
             for what, exp, obs in sentinel_oracle(ospec[(dom, fname)], argspec, res)[:1]:
                 if (dom, fname, what) in seen_fail:
@@ -916,13 +998,32 @@ def run(ctx):
             seen_fail.add(("parse", o["exc"], kind))
             ctx.violation("hub.parse raised %s on a byte string" % o["exc"], {"op": "parse", "version": v, "data": hx, "kind": kind},
                           expected="a message or None", observed=o["exc"])
+    n_seq_steps = 0
+    for i, (v, steps) in enumerate(scases):
+        r = rs[i]
+        for k, (a, b) in enumerate(zip(r["first"], r["last"])):
+            n_seq_steps += 1
+            if "exc" in a and "cls" not in a:
+                if steps[k]["op"] == "parse" and ("seq", "exc", a["exc"]) not in seen_fail:
+                    seen_fail.add(("seq", "exc", a["exc"]))
+                    ctx.violation("hub.parse raised %s in a sequence of calls on one hub" % a["exc"],
+                                  {"op": "sequence", "version": v, "steps": steps, "step": k}, expected="a message or None", observed=a["exc"])
+                continue
+            if json.dumps(a, sort_keys=True) != json.dumps(b, sort_keys=True):
+                what = "message returned by %s no longer holds its values after later calls on the same hub" % (
+                    "parse()" if steps[k]["op"] == "parse" else steps[k]["dom"] + "." + steps[k]["factory"])
+                if ("seq", what) in seen_fail:
+                    n_dup += 1
+                    continue
+                seen_fail.add(("seq", what))
+                ctx.violation(what, {"op": "sequence", "version": v, "steps": steps, "step": k}, expected=a, observed=b)
     n_oracle = len(ctx.violations)
     ctx.log("oracle: %d distinct failures (+%d further failing inputs of the same factory and kind)" % (n_oracle, n_dup))
     ctx.cov["oracle_failing_inputs"] = n_oracle + n_dup
 
     # ---- 5. correspondence inside Coq --------------------------------------------------------
     bad_w = bad_f = bad_p = []
-    logs = []
+    logs, seq_meta = [], []
     corr_err = None
     widx, fidx = [], []
     if schema_ok:
@@ -942,6 +1043,17 @@ def run(ctx):
             for i, (v, hx, kind) in enumerate(pcases):
                 dec = rp[i]["decoded"]
                 pterms.append("(%s, %s, %s)" % (cnat(v), "DecodeError" if dec is None else "(Decoded %s)" % cpb(dec), cobs(rp[i]["obs"])))
+            seq_terms, seq_meta = [], []
+            for i, (v, steps) in enumerate(scases):
+                for k, st in enumerate(steps):
+                    dec, last = rs[i]["decoded"][k], rs[i]["last"][k]
+                    if st["op"] != "parse" or dec is None:
+                        continue
+                    o = last if ("cls" in last or "none" in last) else {"exc": last.get("exc", "?")}
+                    seq_terms.append("(%s, %s, %s)" % (cnat(v), "DecodeError" if dec == "DecodeError" else "(Decoded %s)" % cpb(dec), cobs(o)))
+                    seq_meta.append((i, k))
+            n_single = len(pterms)
+            pterms += seq_terms
             PRE = PRE0 + intern_defs() + "\nOpen Scope N_scope."
             bad_w, l1 = C.run_cases(PID, "wrap", PRE, "nat * string * string * list (string * value) * cobs", wterms, "chk_w", shard=400, max_chars=380000)
             bad_f, l2 = C.run_cases(PID, "fact", PRE, "nat * string * string * args * cobs", fterms, "chk_f", shard=400, max_chars=380000)
@@ -950,7 +1062,7 @@ def run(ctx):
         except C.CheckBroken as e:
             corr_err = str(e)
     ctx.log("correspondence: wrapper %d/%d bad, factory %d/%d bad, parse %d/%d bad%s" % (
-        len(bad_w), len(wcases), len(bad_f), len(fidx), len(bad_p), len(pcases), " ERROR " + corr_err[:300] if corr_err else ""))
+        len(bad_w), len(wcases), len(bad_f), len(fidx), len(bad_p), len(pcases) + len(seq_meta), " ERROR " + corr_err[:300] if corr_err else ""))
     ctx.notes += logs[:6]
     for tag, bad, idx, cases in (("wrapper", bad_w, widx, wcases), ("factory", bad_f, fidx, fcases)):
         for b in bad[:4]:
@@ -977,6 +1089,7 @@ def run(ctx):
     ctx.cov["distribution"] = {"wrapper_cases": len(wcases), "wrapper_kinds": kinds(wcases, 4), "factory_cases": len(fcases),
                                "factory_kinds": kinds(fcases, 4), "factory_inadmissible_calls": n_inadm,
                                "parse_cases": len(pcases), "parse_kinds": kinds(pcases, 2), "parse_outcomes": outcomes,
+                               "sequences_on_one_hub": len(scases), "sequence_steps_read_twice": n_seq_steps,
                                "versions": sorted({c[0] for c in wcases}), "message_classes_parsed_back": len(classes_hit),
                                "registered_message_classes": len(leaf),
                                "uncovered_branches": sorted(leaf - classes_hit)[:40],
@@ -985,7 +1098,9 @@ def run(ctx):
         ctx.cov["samples"] = [{"wrapper": list(wcases[1][:4]), "impl": {k: rw[1].get(k) for k in ("wire", "obs", "exc")}},
                               {"factory": list(fcases[0][:4]), "impl": {k: rf[0].get(k) for k in ("wire", "obs", "exc", "proj")}},
                               {"parse": list(pcases[-1][:2]), "impl": rp[-1]["obs"]}]
-    ctx.cov["correspondence"] = {"wrapper": [len(wcases), len(bad_w)], "factory": [len(fidx), len(bad_f)], "parse": [len(pcases), len(bad_p)]}
+    ctx.cov["correspondence"] = {"wrapper": [len(wcases), len(bad_w)], "factory": [len(fidx), len(bad_f)],
+                                 "parse": [len(pcases), len([b for b in bad_p if b < len(pcases)])],
+                                 "sequence_parse_steps": [len(seq_meta), len([b for b in bad_p if b >= len(pcases)])]}
 
     # ---- 6. verdict -----------------------------------------------------------------------------------
     broken = (not proofs_ok) or (not wf_ok) or bool(js["errors"]) or bad_w or bad_f or bad_p or corr_err or unexpected_opaque
@@ -1023,9 +1138,12 @@ def run(ctx):
             elif bad_f:
                 i = fidx[bad_f[0]]
                 first = {"op": "factory", "case": list(fcases[i]), "impl": rf[i]}
-            else:
+            elif bad_p[0] < len(pcases):
                 i = bad_p[0]
                 first = {"op": "parse", "case": list(pcases[i]), "impl": rp[i]}
+            else:
+                i, k = seq_meta[bad_p[0] - len(pcases)]
+                first = {"op": "sequence", "version": scases[i][0], "steps": scases[i][1], "step": k, "impl_last": rs[i]["last"][k]}
             what = "correspondence C02.Model vs hub (%d wrapper, %d factory, %d parse disagreements)" % (len(bad_w), len(bad_f), len(bad_p))
             det = "\n".join(logs)
         ctx.broken_obligation(what, det, first)
@@ -1053,6 +1171,11 @@ def replay(payload):
             v, reg, name, kw = c["version"], c["registry"], c["name"], c["kwargs"]
         r = C.run_impl("C02.py", {"wrapper": [[v, reg, name, dict((a, j) for a, j in kw)]]})
         print("implementation now:", json.dumps(r["wrapper"][0])[:3000])
+    elif op == "sequence":
+        r = C.run_impl("C02.py", {"sequence": [[case["version"], case["steps"]]]})
+        k = case.get("step", 0)
+        print("step %d right after its call:" % k, json.dumps(r["sequence"][0]["first"][k])[:1500])
+        print("step %d after the whole sequence:" % k, json.dumps(r["sequence"][0]["last"][k])[:1500])
     elif op == "parse":
         if isinstance(c, list):
             v, hx = c[0], c[1]
